@@ -326,6 +326,8 @@ def run(pid, tier, seed):
         obs += c03_props.build(pid, P, R, tier, log_dir)
         import fmt_props
         obs += fmt_props.build(pid, P, R, tier, log_dir)
+        import gen_props
+        obs += gen_props.build(pid, P, R, tier, log_dir)
     results = []
     for ob in obs:
         t0 = time.time()
